@@ -144,10 +144,20 @@ func c14Judge(cell int, q, prefix, data string, hasData bool) []c14Finding {
 	if rejected || !hasData || prefix == "" || must {
 		return fs
 	}
-	r := execOne(p, data, false)
-	if r.Kind != tmplx.OK {
+	return append(fs, c14Confine(cell, text, decoded, data, func(d string) (string, bool) {
+		r := execOne(p, d, false)
+		return r.Out, r.Kind == tmplx.OK
+	})...)
+}
+
+// c14Confine judges how data was interpolated after the (decoded) static prefix that is in effect.
+func c14Confine(cell int, text, decoded, data string, exec func(string) (string, bool)) []c14Finding {
+	var fs []c14Finding
+	out, okx := exec(data)
+	if !okx {
 		return fs
 	}
+	r := struct{ Out string }{out}
 	v, ok := c14AttrValue(r.Out, c14Cells[cell].attr)
 	if !ok || !strings.HasPrefix(v, decoded) {
 		return append(fs, c14Finding{"prefix-not-preserved", "", fmt.Sprintf("program %s with data %s: attribute value %s does not start with the static prefix %q (output %s)", core.Q(text), core.Q(data), core.Q(v), decoded, core.Q(r.Out))})
@@ -178,8 +188,8 @@ func c14Judge(cell int, q, prefix, data string, hasData bool) []c14Finding {
 			fs = append(fs, c14Finding{"normalization-changes-data", "", fmt.Sprintf("program %s with data %s: interpolated part %q does not percent-decode to the data", core.Q(text), core.Q(data), rest)})
 		}
 		// valid escapes are kept
-		if again := execOne(p, rest, false); again.Kind == tmplx.OK {
-			if v2, ok := c14AttrValue(again.Out, c14Cells[cell].attr); ok && v2 != v {
+		if againOut, okA := exec(rest); okA {
+			if v2, ok := c14AttrValue(againOut, c14Cells[cell].attr); ok && v2 != v {
 				fs = append(fs, c14Finding{"not-idempotent", "", fmt.Sprintf("program %s: normalising %q again gives %q", core.Q(text), rest, strings.TrimPrefix(v2, decoded))})
 			}
 		}
@@ -275,10 +285,63 @@ func checkC14(r *core.Run) {
 			report(d, true, c14Judge(j.cell, j.q, prefix, d, true))
 		}
 	})
+	// prefixes chosen by (nested) conditionals: whatever prefix is in effect, the data must be confined accordingly
+	cps := []string{"/s/", "/s?q=", "#", "/p#f", "", "/s/x"}
+	cdata := []string{"a&b=c#d", "x y", "%41", "..", "a/b?c", "\"'<>"}
+	var condProgs int64
+	type cjob struct{ p1, p2, p3 string }
+	var cjobs []cjob
+	for _, p1 := range cps {
+		for _, p2 := range cps {
+			for _, p3 := range cps {
+				cjobs = append(cjobs, cjob{p1, p2, p3})
+			}
+		}
+	}
+	core.ParallelFor(len(cjobs), func(i int) {
+		j := cjobs[i]
+		for _, shape := range []string{"{{if $.C}}%1{{else}}{{if $.C2}}%2{{else}}%3{{end}}{{end}}", "{{if $.C}}{{if $.C2}}%2{{else}}%3{{end}}{{else}}%1{{end}}"} {
+			val := strings.NewReplacer("%1", j.p1, "%2", j.p2, "%3", j.p3).Replace(shape)
+			for _, cell := range []int{1, 0} {
+				cl := c14Cells[cell]
+				text := cl.open + cl.attr + "=\"" + val + "{{$.P0}}\"" + cl.close
+				atomic.AddInt64(&condProgs, 1)
+				for _, c := range []bool{true, false} {
+					for _, c2 := range []bool{true, false} {
+						eff := j.p1
+						if !c && strings.HasPrefix(shape, "{{if $.C}}%1") || c && !strings.HasPrefix(shape, "{{if $.C}}%1") {
+							eff = j.p3
+							if c2 {
+								eff = j.p2
+							}
+						}
+						if eff == "" {
+							continue
+						}
+						p, _ := tmplx.Prepare(text)
+						if p == nil {
+							continue
+						}
+						for _, d := range cdata {
+							atomic.AddInt64(&execs, 1)
+							fs := c14Confine(cell, text, eff, d, func(x string) (string, bool) {
+								rr := execOne2(p, x, c, c2)
+								return rr.Out, rr.Kind == tmplx.OK
+							})
+							for _, f := range fs {
+								r.Witness(f.clause, "conditional-prefix "+f.discr, text+"\x00"+d, f.detail+fmt.Sprintf(" (C=%v C2=%v, prefix in effect %q)", c, c2, eff), nil)
+							}
+						}
+					}
+				}
+			}
+		}
+	})
+	r.Set("conditional_prefix_programs", condProgs)
 	if r.Expired() {
 		r.NotExhaustive("internal deadline reached")
 	}
-	r.Set("states", programs)
+	r.Set("states", programs+condProgs)
 	r.Set("transitions", execs)
 	r.Set("traces_validated_against_impl", programs)
 	r.Set("programs", programs)
